@@ -132,8 +132,8 @@ From LE Require Import Sync.Converge.
    below the finalized height changed, the whole database equals the one before *)
 Definition sync_obs : Type := list N * bool * bool * list (N * N) * bool * bool.
 (* ground truth of the scenario: the peers follow the protocol, the best peer's tip has priority over ours, height of
-   the last block shared with it, its chain, the sender of the block is the best peer *)
-Definition sync_truth : Type := bool * bool * N * list N * bool.
+   the last block shared with it, its chain, the sender of the block is the best peer, the block's generator is a current validator *)
+Definition sync_truth : Type := bool * bool * N * list N * bool * bool.
 (* own tip height, height of the received block, number of validators, current slot - finalized slot; chain before,
    temp blocks (height, code) before, finalized height, peer's common-block answer, delivered blocks, ending (0 ok,
    1 error, 2 statelessly invalid block), valid links (parent, block), ground truth, observation *)
@@ -156,12 +156,12 @@ Definition oN_eqb (a b : option N) : bool :=
 
 Definition check_sync (k : sync_case) : N :=
   let '(own_h, block_h, nv, gap, before, temp0, fin, common, delivered, e, links, tr, o) := k in
-  let '(honest, better, fork_h, peerchain, sender_is_best) := tr in
+  let '(honest, better, fork_h, peerchain, sender_is_best, gen_val) := tr in
   let '(after, banned_o, err_o, temp_o, lowdel, dbeq) := o in
   let n0 := {| chain := before; temp := map (fun kv => (N.to_nat (fst kv), snd kv)) temp0; finalized := N.to_nat fin; banned := false |} in
   let en := match e with 0 => EndOk | 1 => EndErr | _ => EndInvalid end in
   let r2 := 2 * nv in
-  let m := choose_sync own_h block_h nv true gap in
+  let m := choose_sync own_h block_h nv gen_val gap in
   let '(n', out) := match m with
                     | MFast => fast_sync (link_valid links) false true n0 common delivered en (N.to_nat block_h) (N.to_nat r2)
                     | MBlock => block_sync (link_valid links) n0 common delivered en
@@ -184,7 +184,7 @@ Definition check_sync (k : sync_case) : N :=
         match Converge.index_of cid before with
         | Some h =>
             let base := firstn (S h) before in
-            let within := negb fast || (Nat.leb (length before - 1 - h) (N.to_nat r2) && Nat.leb (N.to_nat block_h - h) (N.to_nat r2)) in
+            let within := negb fast || (Nat.leb (length before - 1 - h) (N.to_nat r2) && negb (far32 (N.to_nat block_h) h (N.to_nat r2))) in
             if Nat.leb f h && within && (e =? 0) then
               if chain_valid links base delivered
               then list_eqb after (base ++ delivered) && negb err_o
@@ -197,7 +197,7 @@ Definition check_sync (k : sync_case) : N :=
     end in
   (* clause 2 (ground truth, independent of what was answered): honest peers, the best peer's chain has priority, the
      fork point is not below the finalized height and a sync mechanism applies => the node ends on that chain *)
-  let close := abs_diff own_h block_h <=? r2 in
+  let close := (abs_diff own_h block_h <=? r2) && gen_val in
   let applies :=
     if close then sender_is_best && (own_h <=? fork_h + r2 - 2) && (block_h <=? fork_h + r2)
     else (3 * Z.of_N nv <? gap)%Z in
